@@ -273,12 +273,19 @@ func genDeps(r *core.Rand, W int, netT int64, windows int, bmtp []int64, illForm
 		if !r.Chance(1, 4) {
 			d.start = p64(pickB())
 		}
+		zeroTime := int64(-62135596800) // time.Unix(zeroTime, 0).IsZero(): "always started" / "never ends"
+		if r.Chance(1, 40) {
+			d.start = p64(zeroTime)
+		}
 		if !r.Chance(1, 3) {
 			e := pickB()
 			if d.start != nil && e < *d.start && !illFormed {
 				e = *d.start + r.Pick(0, 0, 1, 200, 1000)
 			}
 			d.end = p64(e)
+		}
+		if r.Chance(1, 40) {
+			d.end = p64(zeroTime)
 		}
 		maxLen := int64(W * (windows + 1))
 		switch r.Intn(5) {
@@ -349,6 +356,9 @@ func genInstance(r *core.Rand, reuse *inst, allowExcluded bool) *inst {
 		netT = int64(W) - r.Range(0, int64(W)/2)
 	}
 	windows := int(r.Range(3, 6))
+	if r.Chance(1, 40) {
+		windows = 0 // chain shorter than / exactly one window
+	}
 	breakTime := allowExcluded && r.Chance(1, 25)
 	if breakTime {
 		excluded += "-timerule"
@@ -382,6 +392,9 @@ func genInstance(r *core.Rand, reuse *inst, allowExcluded bool) *inst {
 		// deployments are drawn after a dry run of the main branch's timestamps.
 		t = &gtree{}
 		total = wEff*windows + r.Intn(wEff+1)
+		if total < 1 {
+			total = 1
+		}
 		tip := grow(r.Fork(), t, -1, total, wEff, netT, nil, breakTime)
 		var bmtp []int64
 		for _, j := range t.path(tip, 1<<30) {
@@ -409,7 +422,9 @@ func genInstance(r *core.Rand, reuse *inst, allowExcluded bool) *inst {
 		for f := 0; f < forks; f++ {
 			// fork points: anywhere, but mostly next to a window boundary
 			fp := r.Intn(len(t.nodes))
-			if r.Chance(2, 3) {
+			if r.Chance(1, 10) {
+				fp = 0 // a second chain right from the genesis block
+			} else if r.Chance(2, 3) {
 				k := int(r.Range(1, int64(windows)))*wEff - 1 + int(r.Pick(-1, 0, 0, 1))
 				if k >= 0 && k < total {
 					fp = k
@@ -471,7 +486,11 @@ func genInstance(r *core.Rand, reuse *inst, allowExcluded bool) *inst {
 		if nn < 0 {
 			nn = 0
 		}
-		switch r.Intn(19) {
+		switch r.Intn(21) {
+		case 20:
+			qs = append(qs, fmt.Sprintf("H%d@%d", id, nn))
+		case 19:
+			qs = append(qs, fmt.Sprintf("P%d@%d", id, qn))
 		case 18:
 			if heavy < 2 {
 				heavy++
@@ -580,6 +599,52 @@ func (P) Generate(g *core.Gen) {
 			subs = append(subs, strings.Join(genInstance(r, first, false).fields(), "/"))
 		}
 		g.Case("seq-same-tree", true, "C14 seq "+strings.Join(subs, "|"))
+	}
+	// ONE Params object reused by three successive chain instances over different trees
+	for i := 0; i < g.N(40, 1500); i++ {
+		first := genInstance(r, nil, false)
+		subs := []string{strings.Join(first.fields(), "/")}
+		for k := 0; k < 2; k++ {
+			in := genInstance(r, nil, false)
+			in.W, in.netT, in.deps = first.W, first.netT, first.deps
+			subs = append(subs, strings.Join(in.fields(), "/"))
+		}
+		g.Case("seq-shared-params", true, "C14 seqp "+strings.Join(subs, "|"))
+	}
+	// every position of the vote window x every top-bits pattern: window 2 of an always-started
+	// legacy deployment votes in all blocks except one, which either lacks the bit or carries the
+	// bit under a wrong top-bits pattern (000, 010 .. 111)
+	for _, W := range []int{2, 3, 4, 5, 8} {
+		for pos := 0; pos < W; pos++ {
+			for pat := 0; pat <= 8; pat++ {
+				if pat == 1 {
+					continue
+				}
+				for _, T := range []int{W - 1, W} {
+					deps := make([]gdep, chaincfg.DefinedDeployments)
+					deps[0] = gdep{bit: 3}
+					for k := 1; k < len(deps); k++ {
+						deps[k] = gdep{bit: 3 + k, start: p64(1 << 40)}
+					}
+					t := &gtree{}
+					cur := -1
+					for k := 0; k < 3*W+1; k++ {
+						v := uint32(0x20000008)
+						if k/W == 1 && k%W == pos {
+							if pat == 8 {
+								v = 0x20000000 // right top bits, bit clear
+							} else {
+								v = uint32(pat)<<29 | 8
+							}
+						}
+						cur = t.add(cur, v, 1000000+int64(k)*60)
+					}
+					qs := []string{fmt.Sprintf("d0@%d", W-1), fmt.Sprintf("d0@%d", 2*W-1), fmt.Sprintf("d0@%d", 3*W-1),
+						fmt.Sprintf("v@%d", 2*W-1), fmt.Sprintf("w3@%d", 3*W)}
+					g.Case("window-position", true, lineOf(W, int64(T), deps, t, qs))
+				}
+			}
+		}
 	}
 	// unknown-rule warnings where exactly ONE bit campaigns (mostly the last one, vbNumBits-1) and no
 	// deployment ever starts: the warned flag then depends on that single bit
